@@ -226,8 +226,12 @@ def register(R):
         # _perform_update: as STEP_POST, proved through `neutral` and L1
         s2 = r[1].val()
         vid = a.self.vehicle_id
-        return Implies(And(ok(r), s2.vehicles.has(vid), l1_instances(a.sim.vehicles, vid, s2.vehicles.get(vid).val())),
-                       inv02(s2))
+        return Implies(ok(r), inv02(s2))
+
+    def PU_L1(a, r):
+        s2 = r[1].val()
+        vid = a.self.vehicle_id
+        return Implies(And(ok(r), s2.vehicles.has(vid)), l1_instances(a.sim.vehicles, vid, s2.vehicles.get(vid).val()))
 
     def PU_FRAME(a, r):
         s2 = r[1].val()
@@ -243,6 +247,7 @@ def register(R):
         s.requires("wf", WF_PRE).requires("inv02", INV02_PRE).requires("current", CURRENT)
         s.ensures("shape", SHAPE, ("C09",))
         s.ensures("counts_stay_matched", PU_POST, ("C02",))
+        s.uses_lemma("L1 sum point-update (lemmas/L1.lean)", PU_L1)
         s.ensures("only_this_vehicle", PU_FRAME, ("C02", "C15", "C08"))
         s.unfold = {"inv02"}
         if cname in ("DispatchPoolingTrip", "ServicingPoolingTrip"):
